@@ -9,8 +9,8 @@ import runner_props
 from runner_props import viol
 
 PROP = "C13"
-LEAN_MODULES = ["PamsProps.C13"]
-NAMESPACES = ["Pams.C13"]
+LEAN_MODULES = ["PamsProps.C13", "PamsProps.SimE2E"]
+NAMESPACES = ["Pams.C13", "Pams.C13"]
 DRIVERS = ["Hooks", "Runner"]
 TRUSTED = [
     "dict buckets of Simulator.events_dict are modelled as filters over the registration list (insertion-ordered dicts/lists)",
